@@ -164,6 +164,9 @@ fn(H1 + "._create_stream", params={"request": REQ}, task="reader",
        ("C01.h11.request.wiring", "same(call_args('Stream.handle')[0].app, self.app) and same(call_args('Stream.handle')[0].client, self.client) and same(call_args('Stream.handle')[0].server, self.server) "
         "and call_args('Stream.handle')[0].stream_id == 1 and call_args('Stream.handle')[0].scheme == (('wss' if self.ssl else 'ws') if isinstance(call_args('Stream.handle')[0], WSStream) else ('https' if self.ssl else 'http'))", "C01"),
        # C06.close-hdr / C18: the request is counted exactly once, before the application can run
+       # C18 "as soon as a worker has taken on more than max_requests": the worker's budget is
+       # charged when the request is taken on -- here, not when it finishes
+       ("C18.mark.on-arrival", "count_calls('WorkerContext.mark_request') == 1", "C18,C15"),
        ("C06.count", "self.keep_alive_requests == old(self.keep_alive_requests) + 1", "C06,C18"),
    ],
    props=("C04", "C01", "C06", "C11", "C18", "C13"))
@@ -173,7 +176,7 @@ fn(H1 + "._maybe_recycle", params={}, task="app",
        # C06.recycle: the connection is reused only if request and response were both complete and
        # shutdown has not begun; otherwise it is closed
        ("C06.recycle.only-when-done", "implies(trace_any('h11', 'x', x == 'start_next_cycle'), not old(self.context.terminated.flag))", "C06,C15"),
-       ("C06.recycle.or-close", "trace_any('h11', 'x', x == 'start_next_cycle') or trace_any('sent', 'x', isinstance(x, Closed))", "C06,C07"),
+       ("C06.recycle.or-close", "trace_any('h11', 'x', x == 'start_next_cycle') or trace_any('sent', 'x', isinstance(x, Closed))", "C06,C07,C05"),
        ("C07.h11.idle-after-recycle", "implies(trace_any('h11', 'x', x == 'start_next_cycle'), trace_any('sent', 'x', isinstance(x, Updated) and x.idle == True))", "C07"),
        ("C06.recycle.resumes-reader", "self.can_read.flag or yielded()", "C06,C07"),
    ],
